@@ -21,13 +21,17 @@ def Enforcer.hasRoleForUser (e : Enforcer) (name role : String) (d : Option Stri
 def Enforcer.getPermissionsForUser (e : Enforcer) (user : String) (d : Option String) : List Rule :=
   e.store.getFiltered "p" "p" 0 (match d with | some dom => [user, dom] | none => [user])
 
-/-- rbac_api.rs:313-330: work-list closure over `get_roles` of the *enforcer's* manager -/
-def implicitRolesGo (rm : RoleMgr String) (dom : String) : Nat → List String → List String → List String
+/-- rbac_api.rs:313-330: work-list closure over `get_roles`: pop a name, add those of its
+roles not seen yet to the result and to the queue -/
+def closureGo (succ : String → List String) : Nat → List String → List String → List String
   | 0, _, res => res
   | _, [], res => res
   | fuel + 1, n :: q, res =>
-    let fresh := dedup ((rm.getRoles n dom).filter (fun r => r ∉ res))
-    implicitRolesGo rm dom fuel (q ++ fresh) (res ++ fresh)
+    let fresh := dedup ((succ n).filter (fun r => r ∉ res))
+    closureGo succ fuel (q ++ fresh) (res ++ fresh)
+
+def implicitRolesGo (rm : RoleMgr String) (dom : String) : Nat → List String → List String → List String :=
+  closureGo (fun n => rm.getRoles n dom)
 
 def RoleMgr.nodeCount (rm : RoleMgr String) (dom : String) : Nat := (rm.graph dom).nodes.length
 
@@ -37,6 +41,16 @@ def Enforcer.getImplicitRoles (e : Enforcer) (name : String) (d : Option String)
 /-- rbac_api.rs:332-347 (order of roles comes out of a `HashSet`: a multiset, the driver sorts) -/
 def Enforcer.getImplicitPermissions (e : Enforcer) (user : String) (d : Option String) : List Rule :=
   (user :: e.getImplicitRoles user d).flatMap (fun r => e.getPermissionsForUser r d)
+
+/-- rbac_api.rs:349-376 `get_implicit_users_for_permission`: subjects of p plus the direct
+users of every role, minus the roles, kept when `enforce` grants -/
+def Enforcer.getImplicitUsersForPermission (e : Enforcer) (call : String → List String → Option Atom)
+    (tbl : String → Option Expr) (perm : List String) : List String :=
+  let roles := (e.store.valuesForField "g" "g" 1).getD []
+  let subjects := (e.store.valuesForField "p" "p" 0).getD [] ++ roles.flatMap (fun r => e.rm.getUsers r "DEFAULT")
+  let users := subjects.filter (fun s => s ∉ roles)
+  dedup (users.filter (fun u =>
+    e.enforce call tbl ((u :: perm).map (fun s => Val.atom (Atom.str s))) == Out.ok true))
 
 /-- rbac_api.rs:45-66, 259-277: the delete helpers are filtered removals -/
 def Enforcer.deleteUser (e : Enforcer) (name : String) : Enforcer × Res :=
